@@ -242,8 +242,12 @@ def check_set_backend():
         mido.open_input()
         if mido.backend is not b3 or mido.open_ioport.__self__ is not b3 or REC.calls[0][3].get('api') != 'KC':
             return 'set_backend(Backend object for the current module) did not rebind (%r)' % (REC.calls,)
+        sys.modules.pop(MODNAMES['emod'], None)
         b2 = mido.Backend(MODNAMES['emod'])
+        REC.imports = []
         mido.set_backend(b2)
+        if REC.imports or b2.loaded:
+            return 'set_backend(Backend object) imported the module before first use'
         if mido.backend is not b2 or mido.get_input_names.__self__ is not b2:
             return 'set_backend(Backend object) did not rebind'
         return None
@@ -297,7 +301,46 @@ def check_env_read_each_call():
             sys.modules.pop(v, None)
 
 
+def check_call_kwargs_do_not_persist():
+    """Keyword arguments of one open_*() call reach that call's constructors only."""
+    import mido.backends.backend as bb
+    REC.imports, REC.calls = [], []
+    REC.native, REC.getdev = False, True
+    if _FINDER not in sys.meta_path:
+        sys.meta_path.insert(0, _FINDER)
+    try:
+        be = bb.Backend(MODNAMES['mod'] + '/NA', use_environ=False)
+        plain = bb.Backend(MODNAMES['mod'], use_environ=False)
+        steps = [(be, 'open_input', {'api': 'X', 'client_name': 'c1'}, [{'api': 'X', 'client_name': 'c1'}]),
+                 (be, 'open_input', {}, [{'api': 'NA'}]),
+                 (be, 'open_output', {'foo': 1}, [{'api': 'NA', 'foo': 1}]),
+                 (be, 'open_ioport', {}, [{'api': 'NA'}, {'api': 'NA'}]),
+                 (be, 'open_ioport', {'api': 'Y'}, [{'api': 'Y'}, {'api': 'Y'}]),
+                 (be, 'open_output', {}, [{'api': 'NA'}]),
+                 (plain, 'open_input', {'api': 'Z', 'bar': 2}, [{'api': 'Z', 'bar': 2}]),
+                 (plain, 'open_input', {}, [{}]),
+                 (plain, 'open_ioport', {}, [{}, {}])]
+        std = ('virtual', 'callback', 'autoreset')
+        for b, call, kw, exp in steps:
+            REC.calls = []
+            passed = dict(kw)
+            getattr(b, call)('p', **passed)
+            got = [{k: v for k, v in c[3].items() if k not in std} for c in REC.calls]
+            if got != exp:
+                return '%s(%r) passed %r to the constructors, expected %r' % (call, kw, got, exp)
+            if passed != kw:
+                return "%s changed the caller's keyword dictionary to %r" % (call, passed)
+        return None
+    except Exception as e:
+        return 'sequence raised %r' % (e,)
+    finally:
+        for v in MODNAMES.values():
+            sys.modules.pop(v, None)
+
+
 def replay(case):
+    if case.get('kind') == 'call_kwargs':
+        return check_call_kwargs_do_not_persist()
     if case.get('kind') == 'env_each_call':
         return check_env_read_each_call()
     if case.get('kind') == 'set_backend':
@@ -324,6 +367,10 @@ CHECK_DEADLOCK FALSE
     ctx.add_tlc(res, 'BackendSel full grid')
     if n != res.distinct:
         raise core.Machinery('replayed %d rows, TLC found %d states' % (n, res.distinct))
+    r = check_call_kwargs_do_not_persist()
+    ctx.replayed += 1
+    if r:
+        ctx.violation('backend/call-kwargs-persist', {'kind': 'call_kwargs'}, r)
     r = check_set_backend()
     ctx.replayed += 1
     if r:
